@@ -51,7 +51,18 @@ pub fn inject_scope_error(i: &mut I, c: [u16; 4]) -> Option<&'static str> {
         });
         n
     };
-    match pick(c[0], 5) {
+    match pick(c[0], 6) {
+        5 => {
+            // an undefined operand of `fail` (scalar, scalar with lens, canon with lens) after the script
+            let operand = match c[1] % 3 {
+                0 => Arg::var(&format!("undefined{}", c[2] % 10)),
+                1 => Arg::Var { name: format!("undefined{}", c[2] % 10), lens: vec![LensStep::Field("a".into())], length: false },
+                _ => Arg::Var { name: format!("#undefined{}", c[2] % 10), lens: vec![LensStep::Idx(0)], length: false },
+            };
+            let old = std::mem::replace(i, I::Null);
+            *i = I::seq(old, I::Fail(FailKind::Arg(operand)));
+            Some("undefined-fail-operand")
+        }
         0 | 1 => {
             // a use renamed to a never-defined name of the same sigil class
             if n_uses == 0 {
